@@ -43,11 +43,144 @@ fn range_operand(rng: &mut Rng, small: bool, for_delete: bool) -> (String, Optio
     (text, r)
 }
 
+/// One command of the exhaustive small-universe enumeration: text, and what it does to the model.
+#[derive(Clone)]
+enum XOp {
+    Ins(u32),
+    Bare(u32),
+    /// LIST (false) / DELETE (true), operand text, inclusive range or None = must be rejected
+    Range(bool, String, Option<(u32, u32)>),
+}
+
+const XU: [u32; 4] = [0, 5, 10, 65529];
+const XO: [u32; 7] = [0, 3, 5, 7, 10, 65529, 65530];
+
+fn xops() -> Vec<XOp> {
+    let mut v = vec![];
+    for n in XU {
+        v.push(XOp::Ins(n));
+    }
+    for n in [0u32, 5, 7, 10, 65529, 65530] {
+        v.push(XOp::Bare(n));
+    }
+    for del in [false, true] {
+        let norm = |r: Option<(u32, u32)>| match r {
+            Some((x, y)) if x > 65529 || y > 65529 || x > y => None,
+            o => o,
+        };
+        v.push(XOp::Range(del, String::new(), if del { None } else { Some((0, 65529)) }));
+        for a in XO {
+            v.push(XOp::Range(del, format!("{}", a), norm(Some((a, a)))));
+            v.push(XOp::Range(del, format!("{}-", a), norm(Some((a, 65529)))));
+            v.push(XOp::Range(del, format!("-{}", a), norm(Some((0, a)))));
+            for b in XO {
+                v.push(XOp::Range(del, format!("{}-{}", a, b), norm(Some((a, b)))));
+            }
+        }
+    }
+    v
+}
+
+impl C15 {
+    /// Exhaustive: every history of `len` commands over the small universe (index k in mixed radix).
+    fn exhaustive_case(&self, mut k: u64, len: usize, ctx: &mut Ctx) {
+        let ops = xops();
+        let n = ops.len() as u64;
+        let mut hist: Vec<XOp> = vec![];
+        for _ in 0..len {
+            hist.push(ops[(k % n) as usize].clone());
+            k /= n;
+        }
+        let mut model: BTreeMap<u32, String> = BTreeMap::new();
+        let mut s = Session::new();
+        s.drain(8);
+        let mut script: Vec<String> = vec![];
+        let mut uid = 0;
+        for op in &hist {
+            let mut expect_list: Option<Vec<String>> = None;
+            let mut must_reject = false;
+            let c = match op {
+                XOp::Ins(n) => {
+                    uid += 1;
+                    model.insert(*n, format!("{} PRINT {}", n, uid));
+                    format!("{} PRINT {}", n, uid)
+                }
+                XOp::Bare(n) => {
+                    if *n <= 65529 {
+                        model.remove(n);
+                    } else {
+                        must_reject = true;
+                    }
+                    format!("{}", n)
+                }
+                XOp::Range(del, t, r) => {
+                    match (del, r) {
+                        (false, Some((a, b))) => expect_list = Some(model.range(*a..=*b).map(|(_, v)| v.clone()).collect()),
+                        (true, Some((a, b))) => {
+                            let keys: Vec<u32> = model.range(*a..=*b).map(|(k, _)| *k).collect();
+                            for k in keys {
+                                model.remove(&k);
+                            }
+                        }
+                        (_, None) => {
+                            must_reject = true;
+                            if !*del {
+                                expect_list = Some(vec![]);
+                            }
+                        }
+                    }
+                    format!("{} {}", if *del { "DELETE" } else { "LIST" }, t).trim_end().to_string()
+                }
+            };
+            script.push(c.clone());
+            mon::journal(&script.join("\n"));
+            let mark = s.mark();
+            s.enter(&c);
+            if s.drain(10_000) != Stop::Stopped {
+                ctx.violation("no-stop", "store:x:no-stop", &format!("{:?} did not return to the prompt", c), &script.join("\n"));
+                return;
+            }
+            let evs = s.events_since(mark).to_vec();
+            let listed: Vec<String> = evs.iter().filter_map(|e| if let Ev::List(l, _) = e { Some(l.clone()) } else { None }).collect();
+            let errors: Vec<String> = evs.iter().filter_map(|e| if let Ev::Error(d, _, _) = e { Some(d.clone()) } else { None }).collect();
+            let got = s.listing_text();
+            let want: Vec<String> = model.values().cloned().collect();
+            let form = format!("{} {}", c.split(' ').next().unwrap_or(""), shape(c.split(' ').nth(1).unwrap_or("")));
+            let bad = if got != want {
+                Some(("store-diverged", format!("listing {:?}, ordered-map model {:?}", got, want)))
+            } else if must_reject && errors.is_empty() {
+                Some(("not-rejected", "must be rejected but no error was reported".to_string()))
+            } else if !must_reject && !errors.is_empty() {
+                Some(("spurious-error", format!("valid but reported {:?}", errors)))
+            } else if let Some(exp) = &expect_list {
+                if &listed != exp {
+                    Some(("list-wrong", format!("listed {:?}, expected exactly {:?}", listed, exp)))
+                } else {
+                    None
+                }
+            } else {
+                None
+            };
+            if let Some((kind, detail)) = bad {
+                ctx.violation(kind, &format!("x:{}:{}", kind, form), &format!("after {:?}: {}", c, detail), &script.join("\n"));
+                return;
+            }
+        }
+        ctx.evals += 1;
+        ctx.distinct_by_construction += 1;
+        ctx.count("exhaustive_histories");
+        ctx.max("exhaustive_history_length", len as u64);
+    }
+}
+
 impl Prop for C15 {
     fn cases(&self, tier: Tier) -> u64 {
+        let n = xops().len() as u64;
         match tier {
-            Tier::Quick => 150_000,
-            Tier::Thorough => 300_000,
+            // all histories of length 1 and 2, every 16th of length 3, then random ones
+            Tier::Quick => n + n * n + n * n * n / 16 + 150_000,
+            // all histories up to length 3
+            Tier::Thorough => n + n * n + n * n * n + 300_000,
         }
     }
 
@@ -58,10 +191,25 @@ impl Prop for C15 {
          change nothing). Half of the histories use a 6-number universe, the others the whole range. After every step \
          get_listing() must equal the BTreeMap model; every LIST must emit exactly the model's lines of the range, \
          ascending. Distinct = hash of the history; non-trivial = at least 3 LIST/DELETE range commands executed on a \
-         non-empty store."
+         non-empty store. Before the random histories: EXHAUSTIVE enumeration of all histories of 1 and 2 commands \
+         (quick: plus every 16th of length 3; thorough: all of length 3, ~4.1 million) over the universe {0,5,10,65529} \
+         with numbered lines, bare numbers (present, absent, 65530) and LIST / DELETE in all five forms with \
+         operands from {0,3,5,7,10,65529,65530} (165 commands), each checked the same way."
     }
 
-    fn run_case(&mut self, _idx: u64, rng: &mut Rng, ctx: &mut Ctx) {
+    fn run_case(&mut self, idx: u64, rng: &mut Rng, ctx: &mut Ctx) {
+        let n = xops().len() as u64;
+        if idx < n {
+            return self.exhaustive_case(idx, 1, ctx);
+        } else if idx < n + n * n {
+            return self.exhaustive_case(idx - n, 2, ctx);
+        } else if ctx.tier == Tier::Thorough && idx < n + n * n + n * n * n {
+            return self.exhaustive_case(idx - n - n * n, 3, ctx);
+        } else if ctx.tier == Tier::Quick && idx < n + n * n + n * n * n / 16 {
+            // a spread-out sixteenth of the length-3 histories
+            let k = (idx - n - n * n) * 16 + rng.below(16);
+            return self.exhaustive_case(k.min(n * n * n - 1), 3, ctx);
+        }
         let small = rng.coin();
         let mut model: BTreeMap<u32, String> = BTreeMap::new();
         let mut s = Session::new();
